@@ -305,6 +305,21 @@ class Outcome:
         self.lines.append(s)
 
 
+def error_origin(o) -> str:
+    """who failed when a run ended in an exception: 'impl' = the innermost frame that belongs to either side is the
+    library's (the code under test raised), 'harness' = it is the harness' own (a private name it reaches for is gone,
+    a stand-in lacks a part of the real API): then the correspondence is broken, but no failing input has been seen"""
+    if not isinstance(o, dict) or not ("error" in o or "crash" in o):
+        return "none"
+    if "crash" in o or str(o.get("error", "")).startswith("StubIncomplete"):
+        return "harness"
+    files = re.findall(r'File "([^"]+)", line \d+', o.get("tb") or "")
+    side = [("impl" if "/pamiq_core/" in f else "harness") for f in files if "/pamiq_core/" in f or "/verif/harness/" in f]
+    if not side:
+        return "impl"          # no traceback kept: as before, the run counts as a failure of the code under test
+    return side[-1]
+
+
 def evaluate(prop, cases: list, tag: str):
     """run implementation + Coq on the cases -> (obs, disagree ids, failing ids, unencodable ids, errors)"""
     obs = run_impl(prop.IMPL, cases, chunk_size=getattr(prop, "IMPL_CHUNK", 200),
@@ -316,12 +331,20 @@ def evaluate(prop, cases: list, tag: str):
         if v is not None:  # decided on the Python side (e.g. the implementation raised)
             if not v.get("agree", True):
                 pre_dis.add(i)
+            if error_origin(o) == "harness":
+                hard.add(i)            # the harness could not drive the code: a broken correspondence, not a failing input
+                continue
             if not v.get("prop_ok", True):
                 pre_fail.add(i)
-            if v.get("hard"):
-                hard.add(i)
             continue
-        t = prop.coq_case(c, o)
+        try:
+            t = prop.coq_case(c, o)
+        except Exception as e:  # noqa: BLE001  the observation cannot be put into the model's vocabulary
+            if isinstance(o, dict):
+                o.setdefault("crash", f"observation not encodable for the model: {type(e).__name__}: {e}")
+            pre_dis.add(i)
+            hard.add(i)
+            continue
         for term in (t if isinstance(t, list) else [t]):     # one observed run may yield several Coq cases
             items.append((i, term))
     dis, fail, errs = coq_verdicts(prop, items, tag)
@@ -399,6 +422,10 @@ def run_check(prop, tier: str, seed: int) -> int:
         obs, dis, fail, hard, errs = evaluate(prop, cases, "main")
         if errs:
             broken.append("cases files did not evaluate: " + errs[0][-600:])
+        if hard:
+            h0 = obs[min(hard)]
+            broken.append(f"the harness could not drive the implementation on {len(hard)} of {len(cases)} cases (not a failing input): "
+                          + str(h0.get("error") or h0.get("crash"))[:300])
     seen = {}
     for c, o in zip(cases, obs):
         if prop.nontrivial(c, o):
@@ -526,6 +553,13 @@ def main(argv=None) -> int:
         if a.replay:
             return run_replay(prop, a.replay)
         return run_check(prop, a.tier, a.seed)
+    except Exception:  # noqa: BLE001
+        # the check's own machinery failed on this tree: the property is no longer shown to hold
+        import traceback
+        tb = traceback.format_exc()
+        rp = write_replay(prop, "no-failing-input-found", None, None, ["the check's own harness failed on this tree: " + tb[-1500:]])
+        print(f"VIOLATION property={prop.ID} replay={rp} no-failing-input-found", flush=True)
+        return 1
     finally:
         cleanup_tmp()
 
